@@ -42,6 +42,46 @@ func (p *flowProto) genTrunc(r *rand.Rand, n int, w *bufio.Writer) {
 		ann = append(ann, cat(be16(p.tplSet), be16(4+len(p.encTplRec(badT))), p.encTplRec(badT))...)
 		fmt.Fprintf(w, "%s %s %s\tannounce\n", p.name, hx(addr), hx(ann))
 		emitted++
+		// a neighbouring exporter (address differing in the low bits of its last octet) announces templates under ids that
+		// differ from ours in the same bits: templates this exporter never announced, but which a cache keyed by anything
+		// weaker than (address, id) would hand to it
+		var nbIDs []int
+		{
+			bit := 1 + r.Intn(3)
+			nb := append([]byte{}, addr...)
+			nb[len(nb)-1] ^= byte(bit)
+			hdrN, _ := p.header(r, ver)
+			annN := hdrN
+			for i := 0; i < nt; i++ {
+				t := p.genTpl(r, (256+i)^bit, false, true)
+				if t.id < 256 {
+					continue
+				}
+				nbIDs = append(nbIDs, t.id)
+				annN = append(annN, cat(be16(p.tplSet), be16(4+len(p.encTplRec(t))), p.encTplRec(t))...)
+			}
+			// plus ids just above ours
+			for _, id := range []int{256 + nt, 257 + nt} {
+				t := p.genTpl(r, id, false, true)
+				nbIDs = append(nbIDs, id)
+				annN = append(annN, cat(be16(p.tplSet), be16(4+len(p.encTplRec(t))), p.encTplRec(t))...)
+			}
+			fmt.Fprintf(w, "%s %s %s\tannounce\n", p.name, hx(nb), hx(annN))
+			emitted++
+		}
+		// the neighbour's ids that are unknown to THIS exporter
+		var foreign []int
+		for _, id := range nbIDs {
+			own := false
+			for _, t := range tpls {
+				if t.id == id {
+					own = true
+				}
+			}
+			if !own && id != 400 {
+				foreign = append(foreign, id)
+			}
+		}
 
 		// the message M as a list of sets
 		hdr, _ = p.header(r, ver)
@@ -80,7 +120,11 @@ func (p *flowProto) genTrunc(r *rand.Rand, n int, w *bufio.Writer) {
 			body := rndBytes(r, r.Intn(30))
 			switch r.Intn(3) {
 			case 0: // template id this exporter never announced
-				u = cat(be16(9000+r.Intn(1000)), be16(4+len(body)), body)
+				id := 9000 + r.Intn(1000)
+				if len(foreign) > 0 && r.Intn(2) == 0 {
+					id = foreign[r.Intn(len(foreign))] // … but its neighbour did
+				}
+				u = cat(be16(id), be16(4+len(body)), body)
 			case 1: // reserved set id
 				u = cat(be16(p.reserved[r.Intn(len(p.reserved))]), be16(4+len(body)), body)
 			default: // data for the template that names an element missing from the model
